@@ -285,11 +285,16 @@ SOURCE_EXPRS = [
 ]
 
 
+TWIN_EXPRS = [("query", "id", "$statusCode"), ("query", "id", "$method"), ("query", "id", "$response.body#/missing")]
+
+
 @st.composite
 def link_case(draw):
     n_sources = draw(st.integers(1, 3))
     sources = []
     link_no = 0
+    # the target may declare `id` in the path AND in the query: links then name the location explicitly (`path.id`, `query.id`)
+    twin_id = draw(st.booleans())
     for i in range(n_sources):
         codes = draw(st.lists(st.sampled_from(["200", "201", "202", "2XX", "404", "4XX", "default"]), min_size=1, max_size=3, unique=True))
         links = {}
@@ -297,22 +302,25 @@ def link_case(draw):
             if draw(st.integers(0, 3)) == 0 and len(codes) > 1:
                 continue
             params = {}
-            chosen = draw(st.lists(st.sampled_from(SOURCE_EXPRS), min_size=1, max_size=3, unique_by=lambda t: (t[0], t[1])))
+            chosen = draw(st.lists(st.sampled_from(SOURCE_EXPRS + (TWIN_EXPRS if twin_id else [])), min_size=1, max_size=4, unique_by=lambda t: (t[0], t[1])))
             for loc, name, expr in chosen:
-                key = f"{loc}.{name}" if draw(st.booleans()) or loc == "header" else name
+                key = f"{loc}.{name}" if draw(st.booleans()) or loc == "header" or (twin_id and name == "id") else name
                 params[key] = expr
             link = {"parameters": params}
             if draw(st.booleans()):
                 link["operationId"] = "getT"
             else:
                 link["operationRef"] = "#/paths/~1t~1{id}/put"
-            body_kind = draw(st.sampled_from([None, None, "literal", "expr", "nested"]))
+            body_kind = draw(st.sampled_from([None, None, "literal", "expr", "nested", "nested-array"]))
             if body_kind == "literal":
                 link["requestBody"] = {"k": 1, "fixed": "yes"}
             elif body_kind == "expr":
                 link["requestBody"] = "$response.body"
             elif body_kind == "nested":
                 link["requestBody"] = {"k": "$response.body#/id", "deep": {"m": "$method"}}
+            elif body_kind == "nested-array":
+                # expressions inside objects that are items of an array, and inside nested arrays
+                link["requestBody"] = {"k": "$statusCode", "items": [{"sku": "$response.body#/id", "n": 1}, "$method", ["$request.query.q", {"deep": "$statusCode"}]]}
             if body_kind and draw(st.booleans()):
                 link["x-schemathesis"] = {"merge_body": draw(st.booleans())}
             links[code] = {f"L{link_no}": link}
@@ -322,7 +330,7 @@ def link_case(draw):
         sources.append({"path": f"/s{i}", "codes": codes, "links": links, "statuses": statuses})
     bodies = draw(st.lists(st.sampled_from([{"id": 7}, {"id": "a b"}, {"data": [{"id": 9}], "id": 3}, {"~1": "tilde-one", "/": "slash", "id": 5}, {}, [1, 2]]), min_size=1, max_size=2))
     resp_headers = draw(st.sampled_from([{}, {"X-Id": "77"}, {"Location": "/t/55", "X-Id": "5"}]))
-    return {"sources": sources, "bodies": bodies, "response_headers": resp_headers, "seed": draw(st.integers(0, 500)), "max_examples": 3}
+    return {"sources": sources, "bodies": bodies, "response_headers": resp_headers, "seed": draw(st.integers(0, 500)), "max_examples": 3, "twin_id": twin_id}
 
 
 def build_link_doc(inp) -> dict:
@@ -346,7 +354,7 @@ def build_link_doc(inp) -> dict:
             {"name": "id", "in": "path", "required": True, "schema": {"type": "string", "enum": ["generated-id"]}},
             {"name": "q", "in": "query", "required": True, "schema": {"type": "string", "enum": ["generated-q"]}},
             {"name": "X-Src", "in": "header", "required": True, "schema": {"type": "string", "enum": ["generated-h"]}},
-        ],
+        ] + ([{"name": "id", "in": "query", "required": True, "schema": {"type": "string", "enum": ["generated-qid"]}}] if inp.get("twin_id") else []),
         "requestBody": {"required": True, "content": {"application/json": {"schema": {"type": "object", "properties": {"g": {"type": "string", "enum": ["generated-body"]}, "deep": {"type": "object", "properties": {"gen": {"type": "string", "enum": ["generated-deep"]}}, "required": ["gen"], "additionalProperties": False}}, "required": ["g", "deep"], "additionalProperties": False}}}},
         "responses": {"200": {"description": "ok"}},
     }}
@@ -432,7 +440,7 @@ def check_links(ctx: Ctx, inp) -> None:
                     continue
                 container = {"path": case["path_parameters"], "query": case["query"], "header": case["headers"]}[loc] or {}
                 got = next((v for k, v in container.items() if k.lower() == pname.lower()), None)
-                generated = {"id": "generated-id", "q": "generated-q", "X-Src": "generated-h"}[pname]
+                generated = {"id": "generated-id", "q": "generated-q", "X-Src": "generated-h"}[pname] if (loc, pname) != ("query", "id") else "generated-qid"
                 if expected is rex.UNRES or expected is None:
                     # nothing to pass: the generated value (or nothing) must be used, never a placeholder
                     if got is not None and _as_text(got, loc) != generated:
